@@ -1170,6 +1170,18 @@ pub fn units() -> Vec<Unit> {
             CustomMulti(crate::maccmd_sets::framing_uplink_remote),
         ],
     },
+    // ---- builder F (tie A for the creators, C19): the derive-generated creators and the hand-written setters
+    Unit {
+        module: "Gen.MacCmdCreatorFn",
+        file: "lorawan-encoding/src/maccommandcreator.rs",
+        more_files: vec!["lorawan-encoding/src/maccommands.rs", "lorawan-macros/src/lib.rs"],
+        imports: vec![],
+        items: vec![
+            CustomMulti(crate::maccmd::payloads),
+            CustomMulti(crate::maccmd_sets::payloads_uplink_mac),
+            CustomMulti(crate::maccmd_creators::creators),
+        ],
+    },
     ]
 }
 
